@@ -80,24 +80,25 @@ theorem output_strips_to_plain (cfg : Config) (hv : cfg.verb = false) (env : Env
   subst hT
   exact Grexv.strip_colored cfg hv _ _ (Nat.le_refl _)
 
-/-- **C15 in verbose mode (whole pattern)** for every expression and every combination of the other settings, provided the
-verbose text without highlighting contains no `ESC` character (the printer does not escape U+001B; see `strip_colored_verbose_partial`
-below for what is missing): removing the SGR sequences from the highlighted verbose text yields exactly the verbose text without
-highlighting — the same lines, the same indentation (`indent_regexp` computes the nesting level from each line with the codes
-removed, and skips empty lines: a painted stretch is never empty and never spans a line break, so no line consists of codes only) -/
+/-- **C15 in verbose mode (whole pattern)** for every expression and every combination of the other settings, provided that in the
+verbose text without highlighting no `ESC` character is directly followed by `[` (`NoEB`; see below for what is missing): removing the SGR
+sequences from the highlighted verbose text yields exactly the verbose text without highlighting — the same lines, the same indentation
+(`indent_regexp` computes the nesting level from each line with the codes removed, and skips empty lines: a painted stretch is never
+empty and never spans a line break, so no line consists of codes only) -/
 theorem strip_colored_verbose_partial (cfg : Config) (hv : cfg.verb = true) (e : Expr)
-    (h27 : 27 ∉ fmtRegExp (withColor cfg false) e) (fuel : Nat)
+    (h27 : NoEB (fmtRegExp (withColor cfg false) e)) (fuel : Nat)
     (hf : (fmtRegExp (withColor cfg true) e).length ≤ fuel) :
     stripColor fuel (fmtRegExp (withColor cfg true) e) = fmtRegExp (withColor cfg false) e :=
   Grexv.strip_colored_verbose cfg hv e h27 fuel hf
 
-/-- the full statement would drop the hypothesis `h27`.  What is missing: when the plain verbose text contains `ESC [ 0 m` or
-`ESC [ d ; d m` (an `ESC` of a test case followed by a character class such as `[0m]`), `indent_regexp` without highlighting computes
-its nesting levels from lines with that stretch removed while the highlighted run does not, and showing that this never changes a
-level needs the fact that a raw `(`, `)`, `^`, `$` only ever starts a line.  The inputs excluded are compared per input. -/
+/-- the full statement would drop the hypothesis.  The printer does not escape U+001B, every `[` of a literal is escaped, so the hypothesis
+only excludes an `ESC` of a test case that ends up directly in front of a character class (`ESC [ 0 m ]` …): there `indent_regexp` without
+highlighting strips what looks like a code from its own line before computing the nesting level while the highlighted run does not, and
+showing that this never changes a level needs the order of class members and the fact that a raw `(`, `)`, `^`, `$` only ever starts a
+line.  Those inputs are compared per input. -/
 theorem output_strips_to_plain_verbose_partial (cfg : Config) (hv : cfg.verb = true) (env : Env) (ws : List Str) (stT stF : Stages)
     (hT : regExpFrom (withColor cfg true) env ws = .ok stT) (hF : regExpFrom (withColor cfg false) env ws = .ok stF)
-    (h27 : 27 ∉ fmtRegExp (withColor cfg false) stF.finalAst) :
+    (h27 : NoEB (fmtRegExp (withColor cfg false) stF.finalAst)) :
     stripColor ((fmtRegExp (withColor cfg true) stT.finalAst).length) (fmtRegExp (withColor cfg true) stT.finalAst) =
       fmtRegExp (withColor cfg false) stF.finalAst := by
   rw [regExpFrom_color, hF] at hT
@@ -105,9 +106,18 @@ theorem output_strips_to_plain_verbose_partial (cfg : Config) (hv : cfg.verb = t
   subst hT
   exact Grexv.strip_colored_verbose cfg hv _ h27 _ (Nat.le_refl _)
 
-/-- the hypotheses are satisfiable: the verbose text of `[ab]` contains no `ESC` -/
-example : ({ verb := true } : Config).verb = true ∧ 27 ∉ fmtRegExp (withColor { verb := true } false) (.cls [97, 98]) := by
-  refine ⟨rfl, ?_⟩
+/-- a text without `ESC` satisfies the hypothesis, and so does one whose `ESC` is followed by anything but `[` -/
+theorem noEB_of_no27 : ∀ (t : Str), 27 ∉ t → NoEB t
+  | [], _ => trivial
+  | [_], _ => trivial
+  | a :: b :: r, h => ⟨fun e => h (by simp [e.1]), noEB_of_no27 (b :: r) (fun e => h (List.mem_cons_of_mem _ e))⟩
+
+example : NoEB [27, 97, 91, 48, 109] ∧ ¬ NoEB [27, 91, 48, 109] := by
+  refine ⟨⟨by decide, by decide, by decide, by decide, trivial⟩, fun h => h.1 ⟨rfl, rfl⟩⟩
+
+/-- the hypotheses are satisfiable: the verbose text of `[ab]` -/
+example : ({ verb := true } : Config).verb = true ∧ NoEB (fmtRegExp (withColor { verb := true } false) (.cls [97, 98])) := by
+  refine ⟨rfl, noEB_of_no27 _ ?_⟩
   simp only [fmtRegExp, bodyText, fmtExpr]
   decide +kernel
 
